@@ -8,7 +8,7 @@ import os
 from fractions import Fraction
 
 from ..harness import ROOT, Run
-from .. import dims
+from .. import catalogue, dims
 
 PROPERTY = "C20"
 LEVEL = "exploration"
@@ -48,6 +48,26 @@ def _check_constant(name: str, q, ref: dict) -> list[str]:
     lib = complex(convert_to_si(q).evalf(30))
     if abs(lib - val) > 1e-12 * abs(val):
         out.append(f"convert_to_si({name}) = {lib!r} but raw scale gives {val!r}")
+    # ... and so must the unit system the constants are registered in (what sympy's own
+    # convert_to, Quantity.convert_to and get_quantity_dimension read)
+    import sympy as sp
+    from sympy.physics.units import convert_to as sympy_convert_to
+    from symplyphysics import SI
+    try:
+        reg = dims.of_dimension(SI.get_quantity_dimension(q))
+    except Exception as ex:  # pylint: disable=broad-except
+        reg = f"{type(ex).__name__}"
+    if not (isinstance(reg, dims.DimVec) and reg == want):
+        out.append(f"dimension of {name} registered in the SI unit system is {reg}, reference {want}")
+    else:
+        unit = catalogue.si_unit_of(want)
+        try:
+            conv = sympy_convert_to(q, unit) if unit != 1 else q.scale_factor
+            num = complex(sp.N(sp.sympify(conv) / unit, 30))
+            if abs(num - val) > 1e-12 * abs(val):
+                out.append(f"sympy's convert_to({name}, {unit}) gives {num!r}, raw scale {val!r}")
+        except Exception as ex:  # pylint: disable=broad-except
+            out.append(f"sympy's convert_to({name}, {unit}) raised {type(ex).__name__}")
     return out
 
 
